@@ -23,7 +23,7 @@ CHECKS = {
    category="exploration", design_ref="5.C01",
    technique="deterministic simulation (faults off): seeded scheduler over producer/consumer histories on long-lived UperWriter/UperReader, reference-model oracle",
    text="Seeded search over histories: 1-3 producer/consumer pairs append streams of zoo messages to long-lived writers, snapshot and poll at scheduler-chosen instants and resume from saved bit offsets; every decoded value must equal the sent one (PartialEq) and consume exactly its bit extent, closed streams must end with 0 bits remaining, slack bytes / garbage padding after the declared length must be invisible. Evidence, not proof: the type dimension is the finite zoo, values and schedules are sampled (about 1.2M runs quick, 50M thorough, in two build profiles).",
-   note="Trusted: the harness's GenReader/TreeWriter over the public descriptor traits, PartialEq of generated types, rustc. Assumed: values reachable through public constructors; zoo types stand for 'every accepted type'. Scenarios inside the domain predicate of the open known finding D7 (open-type payload >= 16384 octets) are re-drawn; its pinned replays are re-run instead. The zoo (about 920 types) is hand-written groups plus generated modules and generated version chains (tools/gen_zoo.py, tools/gen_rchains.py)."),
+   note="Trusted: the harness's GenReader/TreeWriter over the public descriptor traits, PartialEq of generated types, rustc. Assumed: values reachable through public constructors; zoo types stand for 'every accepted type'. Scenarios inside the domain predicate of the open known finding D7 (open-type payload >= 16384 octets) are re-drawn; its pinned replays are re-run instead. The zoo (about 1100 types) is hand-written groups plus generated modules and generated version chains (tools/gen_zoo.py, tools/gen_rchains.py)."),
  "C04": dict(
    category="fault_enumeration", design_ref="5.C04",
    technique="deterministic simulation with fault injection on the wire and under io::Read; out-of-process abort/hang detection; allocator seam",
